@@ -61,7 +61,7 @@ LAST_ITEMS = [
 ]
 DEFS = ["def string S = 's v'", "def list L = l1 'l 2'", 'def list E = ', 'def path P = -rel-act pf']
 
-FORMS = ('percent', 'path', 'python', 'sym', 'sym2')
+FORMS = ('percent', 'path', 'python', 'sym', 'sym2', 'sym2-identity-first', 'sym3-identity-around')
 STDINS = ('none', 'str', 'here', 'file', 'prog', 'setup', 'both', 'prog-ign', 'prog-err-ign', 'prog-err', 'here-odd')
 PLACES = ('act', 'setup-run', 'before-assert-run', 'assert-run', 'cleanup-run', 'setup-percent', 'stdout-from', 'stderr-from', 'run-transformer',
           'run-text-matcher', 'run-file-matcher', 'exit-code-from')
@@ -192,6 +192,16 @@ def program(form, argsrc, stdin_line, in_parens=False):
     elif form == 'sym':
         defs = ["def program P1 = % prog p1a 'p1 b'\n   -stdin ( 'p1-in ' )\n   -transformed-by replace a b"]
         head, pre, sin, trs = '@ P1', ['prog', 'p1a', 'p1 b'], 'p1-in ', [lambda s: s.replace('a', 'b')]
+    elif form == 'sym2-identity-first':
+        # the transformations accumulated along a chain of program symbols are ALL applied, in definition order - also when some are `identity`
+        defs = ["def program P1 = % prog p1a\n   -transformed-by identity",
+                "def program P2 = @ P1 p2a\n   -transformed-by char-case -to-upper"]
+        head, pre, sin, trs = '@ P2', ['prog', 'p1a', 'p2a'], '', [lambda s: s.upper()]
+    elif form == 'sym3-identity-around':
+        defs = ["def program P1 = % prog\n   -transformed-by identity",
+                "def program P2 = @ P1 p2a\n   -transformed-by replace a b",
+                "def program P3 = @ P2\n   -stdin ( 'p3-in ' )\n   -transformed-by identity"]
+        head, pre, sin, trs = '@ P3', ['prog', 'p2a'], 'p3-in ', [lambda s: s.replace('a', 'b')]
     else:
         defs = ["def program P1 = % prog p1a 'p1 b'\n   -stdin ( 'p1-in ' )\n   -transformed-by replace a b",
                 "def program P2 = @ P1 @[L]@ p2a\n   -stdin ( 'p2-in ' )\n   -transformed-by replace b ca"]
